@@ -67,30 +67,32 @@ type freeRun struct {
 	pt  reflect.Type
 	t0  time.Time
 
-	mu        sync.Mutex
-	vmu       sync.Mutex
-	hist      []histEntry
-	verified  map[*SimCfg]bool // Verify returned nil for it
-	verifyCnt int
-	stores    []storeRec
-	serialOf  map[*SimCfg]uint64
-	cbs       []cbRec
-	inCB      int
-	seq       int
-	exited    bool
-	cancelled bool
-	cancelAt  time.Duration
-	initial   *SimCfg
-	forever   chan struct{}
-	unregTrue map[string]int // handle name -> seq at which unregister returned true
-	lastRep   []SimLayer     // latest value handed to a report call that was accepted, per source
-	regSerial map[string]uint64
-	enableOK  bool
-	doneCnt   int
-	timedOut  bool
-	seen      []seenRec
-	pairs     []pairRec
-	evSeen    []evRec
+	mu            sync.Mutex
+	vmu           sync.Mutex
+	hist          []histEntry
+	verified      map[*SimCfg]bool // Verify returned nil for it
+	verifyCnt     int
+	stores        []storeRec
+	serialOf      map[*SimCfg]uint64
+	cbs           []cbRec
+	inCB          int
+	seq           int
+	exited        bool
+	cancelled     bool
+	cancelAt      time.Duration
+	initial       *SimCfg
+	forever       chan struct{}
+	unregTrue     map[string]int // handle name -> seq at which unregister returned true
+	lastRep       []SimLayer     // latest value handed to a report call that was accepted, per source
+	regSerial     map[string]uint64
+	enableOK      bool
+	doneCnt       int
+	timedOut      bool
+	enableStarted bool
+	enables       []enableRec
+	seen          []seenRec
+	pairs         []pairRec
+	evSeen        []evRec
 }
 
 type evRec struct {
@@ -101,6 +103,11 @@ type evRec struct {
 type pairRec struct {
 	c *SimCfg
 	s uint64
+}
+
+type enableRec struct {
+	serial uint64
+	cfg    *SimCfg
 }
 
 type seenRec struct {
@@ -156,6 +163,12 @@ func (r *freeRun) log(actor int, op, res string) {
 }
 
 func (r *freeRun) onVerifyFree(c *SimCfg, err error) {
+	r.mu.Lock()
+	early := r.sc.Delay && !r.enableStarted && r.d != nil
+	r.mu.Unlock()
+	if early {
+		r.viol("C09", "Verify was invoked although EnableVerification has not been called yet (delayed verification)")
+	}
 	r.mu.Lock()
 	r.verifyCnt++
 	if err == nil {
@@ -572,15 +585,26 @@ func (r *freeRun) actor(ai int, a *Actor, doneCh chan<- int) {
 					r.mu.Unlock()
 				}
 			case "enable":
-				cfg, _, err := r.d.EnableVerification(ctx)
+				r.mu.Lock()
+				r.enableStarted = true
+				r.mu.Unlock()
+				cfg, tok, err := r.d.EnableVerification(ctx)
 				resStr = fmt.Sprint(err)
 				if err == nil {
 					r.observed(cfg, "EnableVerification")
 					if sc := r.sc; sc.Delay {
 						r.mu.Lock()
 						r.enableOK = true
+						r.enables = append(r.enables, enableRec{serialOf(tok), cfg})
 						r.mu.Unlock()
+						if cfg == nil {
+							r.viol("C09", "EnableVerification succeeded but returned a nil config")
+						} else if cfg.Limit < 0 {
+							r.viol("C09", "EnableVerification reported success for a config that fails Verify (Limit=%d, serial %d)", cfg.Limit, serialOf(tok))
+						}
 					}
+				} else if r.sc.Delay && !errors.Is(err, ErrInvalid) && !r.shutdownStarted() && !errors.Is(err, context.DeadlineExceeded) {
+					r.viol("C09", "EnableVerification failed with %v, want nil or the verifier's error", err)
 				}
 			}
 		}()
@@ -615,6 +639,28 @@ func (r *freeRun) finalChecks() {
 	r.mu.Lock()
 	seen := append([]seenRec{}, r.seen...)
 	r.mu.Unlock()
+	r.mu.Lock()
+	enables := append([]enableRec{}, r.enables...)
+	r.mu.Unlock()
+	if len(enables) > 0 {
+		first := enables[0].serial
+		for _, e := range enables {
+			if e.serial < first {
+				first = e.serial
+			}
+			if want, ok := sof[e.cfg]; ok && want != e.serial {
+				r.viol("C09", "EnableVerification returned a config stored as version %d together with serial %d", want, e.serial)
+				return
+			}
+		}
+		for _, st := range stores {
+			if st.serial > first && st.ptr.Limit < 0 {
+				r.viol("C09", "version %d (Limit=%d) was installed unverified after EnableVerification had succeeded on version %d: the switch-on is not atomic", st.serial, st.ptr.Limit, first)
+				return
+			}
+		}
+		r.label2("enable-succeeded")
+	}
 	r.mu.Lock()
 	pairs := append([]pairRec{}, r.pairs...)
 	r.mu.Unlock()
